@@ -191,6 +191,40 @@ func Minimise(t *testing.T, plan *Plan, want *Violation, opts Opts, maxExec int,
 			try(c)
 		}
 	}
+	// 4b. requests served during a stalled upload, one at a time (but never the
+	// last one: without any the step would be an ordinary request), and the gate
+	for si := range best.Steps {
+		for di := len(best.Steps[si].During) - 1; di >= 0; di-- {
+			if di >= len(best.Steps[si].During) || len(best.Steps[si].During) <= 1 {
+				continue
+			}
+			c := best.Clone()
+			d := c.Steps[si].During
+			c.Steps[si].During = append(append([]Step{}, d[:di]...), d[di+1:]...)
+			try(c)
+		}
+		for di := range best.Steps[si].During {
+			if len(best.Steps[si].During[di].Body) > 4 {
+				c := best.Clone()
+				c.Steps[si].During[di].Body = c.Steps[si].During[di].Body[:3]
+				try(c)
+			}
+			for hi := len(best.Steps[si].During[di].Headers) - 1; hi >= 0; hi-- {
+				if hi >= len(best.Steps[si].During[di].Headers) {
+					continue
+				}
+				c := best.Clone()
+				h := c.Steps[si].During[di].Headers
+				c.Steps[si].During[di].Headers = append(append([][2]string{}, h[:hi]...), h[hi+1:]...)
+				try(c)
+			}
+		}
+		if len(best.Steps[si].During) > 0 && best.Steps[si].Gate > 0 {
+			c := best.Clone()
+			c.Steps[si].Gate = 0
+			try(c)
+		}
+	}
 	// 5. simplify arguments
 	for si := range best.Steps {
 		if best.Steps[si].DelayNS > 1000 {
@@ -215,6 +249,9 @@ func Minimise(t *testing.T, plan *Plan, want *Violation, opts Opts, maxExec int,
 		if len(best.Steps[si].Body) > 8 && best.Steps[si].Method == "PUT" {
 			c := best.Clone()
 			c.Steps[si].Body = c.Steps[si].Body[:4]
+			if c.Steps[si].Gate > 2 {
+				c.Steps[si].Gate = 2
+			}
 			for fi := range c.Steps[si].Faults {
 				if c.Steps[si].Faults[fi].Seam == "req-body" && c.Steps[si].Faults[fi].At > 2 {
 					c.Steps[si].Faults[fi].At = 2
